@@ -24,4 +24,6 @@ ASSUMPTIONS = ['ghost flavor: read_lock/unlock counters per thread, synchronize_
                'typed static pools behind a custom cds_lfht_alloc; get_possible_cpus_array_len() = 1']
 LEVEL_TEXT = 'Bounded model checking of the real rculfhash.c add/del/lookup/traversal code for all interleavings within R rounds of 3 threads and all 64-bit hash values.'
 LEVEL_NOTE = 'Trusted: clang-14 lowering, irseq translator, asm table, ghost flavor, pool allocator, CBMC/MiniSat.'
-NA_REASON = 'check built but not yet validated on the unchanged tree within the time/memory caps; not claimed'
+NA_REASON = ('not decided: harness/c05_lfht_conc.c runs the real _cds_lfht_add / _cds_lfht_del / lookup in three threads; their nested retry x bucket-walk x garbage-collect loops '
+             'do not finish symbolic execution within 25 minutes, so there is no verdict on the unchanged tree and nothing is claimed; the sequential behaviour of the same functions '
+             'is covered by C08/C09')
